@@ -74,6 +74,8 @@ def unview(t: Term) -> Term:
             a = args[0]
             if a[0] == "const" and isinstance(a[1], int):   # bytes(n) is not a view
                 break
+            if a[0] == "bin" and a[1] in ("-", "*", "//", "%") and any(isinstance(y, tuple) and y[:2] == ("call", ("ext", "len")) for y in subterms(a)):
+                break                                        # bytes(40 - len(x)): n zero bytes, not a view either
             if a[0] in ("list", "tuple"):                    # bytes([..]) is a constructor
                 break
             t = a
@@ -738,6 +740,28 @@ class TermAnalysis(Analysis):
                                     tgt = y.func.value
                                 if tgt is not None and isinstance(tgt.value, ast.Name) and tgt.value.id == h.params[0]:
                                     body_assigned.add(f"{recv}.{tgt.attr}")
+        # locals handed to an unknown helper that changes its parameter in place (buf += ..., buf.append(..)) are loop-carried as well
+        if self.fn is not None:
+            from .helpers import unknown_callee
+            for n in node.body + getattr(node, "orelse", []):
+                for x in ast.walk(n):
+                    if not isinstance(x, ast.Call):
+                        continue
+                    t = unknown_callee(self.prog, self.fn, x)
+                    if t is None:
+                        continue
+                    hp = t.params[1:] if (t.kind in ("method", "classmethod") and isinstance(x.func, ast.Attribute)) else t.params
+                    changed = set()
+                    for y in ast.walk(t.node):
+                        if isinstance(y, ast.AugAssign) and isinstance(y.target, ast.Name):
+                            changed.add(y.target.id)
+                        elif isinstance(y, ast.Call) and isinstance(y.func, ast.Attribute) and y.func.attr in MUTATORS and isinstance(y.func.value, ast.Name):
+                            changed.add(y.func.value.id)
+                        elif isinstance(y, ast.Subscript) and isinstance(y.ctx, ast.Store) and isinstance(y.value, ast.Name):
+                            changed.add(y.value.id)
+                    for pn, an in zip(hp, x.args):
+                        if pn in changed and isinstance(an, ast.Name):
+                            body_assigned.add(an.id)
         for k in body_assigned:
             st.env[k] = ("loopvar", k, node.lineno)
         return st
@@ -1193,6 +1217,20 @@ class TermAnalysis(Analysis):
         return ks[0], ks[-1], d[1][0][1][1] - d[1][0][0][1]
 
     def _call_norm(self, t: Term, e: ast.Call, st: State) -> Term:
+        if t[0] == "call" and t[1] == ("ext", "range") and 1 <= len(t[2]) <= 3 and not t[3] and \
+                all(is_const(a) and isinstance(a[1], int) and not isinstance(a[1], bool) for a in t[2]) and (len(t[2]) < 3 or t[2][2][1] != 0):
+            return const(range(*[a[1] for a in t[2]]))          # a range with constant bounds
+        if t[0] == "call" and t[1] == ("ext", "itertools.compress") and len(t[2]) == 2 and not t[3]:
+            # compress((a, b), (p, q)): a if p, b if q
+            def items(x):
+                if x[0] in ("tuple", "list") and not any(y[0] in ("starred", "when") for y in x[1]):
+                    return list(x[1])
+                if is_const(x) and isinstance(x[1], (tuple, list)):
+                    return [const(y) for y in x[1]]
+                return None
+            d_, s_ = items(t[2][0]), items(t[2][1])
+            if d_ is not None and s_ is not None:
+                return ("tuple", tuple(("when", sel, dat) if not is_const(sel) else dat for dat, sel in zip(d_, s_) if not (is_const(sel) and not sel[1])))
         if t[0] == "call" and t[1][0] == "meth" and t[1][2] == "join" and is_const(t[1][1]) and t[1][1][1] in (b"", "") and len(t[2]) == 1 and not t[3] \
                 and t[2][0][0] in ("tuple", "list") and t[2][0][1] and not any(x[0] in ("starred", "when") for x in t[2][0][1]):
             # b"".join((a, b, c)) is a + b + c
@@ -1706,6 +1744,12 @@ class TermEngine(Engine):
             self.a.record = saved
         if it is not None and it[0] in ("tuple", "list") and 0 < len(it[1]) <= 16 and not any(x[0] == "starred" for x in it[1]):
             return list(it[1])
+        if it is not None and it[0] == "call" and it[1][0] == "meth" and it[1][2] in ("items", "keys", "values") and not it[2] and it[1][1][0] == "dict" \
+                and 0 < len(it[1][1][1]) <= 16 and all(k[0] != "splat" for k, _v in it[1][1][1]):
+            # a literal mapping walked entry by entry
+            return [("tuple", (k, v)) if it[1][2] == "items" else (k if it[1][2] == "keys" else v) for k, v in it[1][1][1]]
+        if it is not None and it[0] == "dict" and 0 < len(it[1]) <= 16 and all(k[0] != "splat" for k, _v in it[1]):
+            return [k for k, _v in it[1]]
         if it is not None and it[0] == "const" and isinstance(it[1], (tuple, list)) and 0 < len(it[1]) <= 16:
             return [const(x) for x in it[1]]
         return None
